@@ -52,6 +52,9 @@ template <class T> struct Shrt3d
     typedef Vec3<T>     V3;
     const LD            eps = ex::eps<T> ();
     using R_            = vf::Report;
+    // site suffix naming the input class of the stage that uses this checker (empty for the original stages)
+    std::string sfx;
+    std::string st (const std::string& site) const { return sfx.empty () ? site : site + sfx; }
 
     static LD recomposeErr (const V3& s, const V3& h, const M3& Rl, const M3& Mlin)
     {
@@ -64,22 +67,29 @@ template <class T> struct Shrt3d
     template <class InF> void checkAffine (const std::string& site, InF&& in, const M44& got, const M3& lin, const M44& M, LD tolL, LD tolT) const
     {
         LD dl = ref::maxdiff (ref::fromLib<3> (got), lin);
-        if (!(dl <= tolL)) vf::R ().fail (site + ".linear", in (), "within " + ref::fmtE (tolL), ref::fmtE (dl) + " off; got " + ref::fmtLib<4> (got));
+        if (!(dl <= tolL)) vf::R ().fail (st (site + ".linear"), in (), "within " + ref::fmtE (tolL), ref::fmtE (dl) + " off; got " + ref::fmtLib<4> (got));
         LD dt = 0;
         for (int i = 0; i < 3; ++i) { LD d = fabsl ((LD) got[3][i] - (LD) M[3][i]); dt = (d == d) ? std::max (dt, d) : INFINITY; }
-        if (!(dt <= tolT)) vf::R ().fail (site + ".translation", in (), vf::Msg () << "(" << M[3][0] << " " << M[3][1] << " " << M[3][2] << ")", vf::Msg () << "(" << got[3][0] << " " << got[3][1] << " " << got[3][2] << ")");
-        if (!frameOK (got)) vf::R ().fail (site + ".affine-frame", in (), "last column (0,0,0,1)", ref::fmtLib<4> (got));
+        if (!(dt <= tolT)) vf::R ().fail (st (site + ".translation"), in (), vf::Msg () << "(" << M[3][0] << " " << M[3][1] << " " << M[3][2] << ")", vf::Msg () << "(" << got[3][0] << " " << got[3][1] << " " << got[3][2] << ")");
+        if (!frameOK (got)) vf::R ().fail (st (site + ".affine-frame"), in (), "last column (0,0,0,1)", ref::fmtLib<4> (got));
     }
 
     // ---- a matrix with non-zero scales. mayReport: tiny (1e-30) scales may legitimately be reported instead
-    template <class TagF> void regular (const Shrt3& f, TagF&& tagf, ShrtTally& t, bool extras, bool mayReport = false) const
+    // gridAbs (stage shrt3d-uniformly-scaled only, otherwise 0): absolute rounding error of the subnormal grid. Every bound
+    // below is derived from "each entry of M, and each returned scale, carries a rounding error <= eps/2 relative", i.e.
+    // <= eps/2 * max|M| absolute. When the entries of M (and therefore the returned scales s = normalised length * maxVal)
+    // are subnormal, each of them is instead rounded to a multiple of denorm_min: absolute error <= eps/2 * max|M| +
+    // denorm_min/2. The same derivations therefore hold with  eps * max|M|  replaced by  eps * max|M| + denorm_min
+    // (relative form: eps + denorm_min / max|M|); rotation, shear and the orthonormality of the residual rotation are
+    // computed from the rows divided by their largest entry (O(1), normal numbers) and keep their bounds.
+    template <class TagF> void regular (const Shrt3& f, TagF&& tagf, ShrtTally& t, bool extras, bool mayReport = false, LD gridAbs = 0) const
     {
         auto&       Rp   = vf::R ();
         const M3    linL = linOf (f);
         const M44   M    = toLib44<T> (affine (linL, f.t));
         const M3    Mlin = ref::fromLib<3> (M);
         const Shrt3 c    = canonical (f);
-        const LD    cond = cond3 (f), nrm = ref::maxabs (Mlin), tol = 16 * cond * eps * nrm;
+        const LD    cond = cond3 (f), nrm = ref::maxabs (Mlin), tol = 16 * cond * eps * nrm + 16 * cond * gridAbs;
         auto in = [&] () { return "T=" + std::string (ref::tname<T> ()) + " " + tagf () + " M=" + ref::fmtLib<4> (M); };
         ++t.cases;
 
@@ -87,7 +97,7 @@ template <class T> struct Shrt3d
         V3   s, h, r, tr;
         bool ok = false;
         try { ok = extractSHRT (M, s, h, r, tr, false); }
-        catch (...) { Rp.fail ("extractSHRT.exc-false-throws", in ()); return; }
+        catch (...) { Rp.fail (st ("extractSHRT.exc-false-throws"), in ()); return; }
         if (!ok)
         {
             if (mayReport)
@@ -95,27 +105,27 @@ template <class T> struct Shrt3d
                 ++t.tiny_reported;
                 bool thrown = false;
                 try { V3 a, b, cc, d; extractSHRT (M, a, b, cc, d, true); } catch (const std::domain_error&) { thrown = true; } catch (...) {}
-                if (!thrown) Rp.fail ("extractSHRT.exc-true-vs-exc-false", in (), "std::domain_error (exc=false returned false)", "no domain_error");
+                if (!thrown) Rp.fail (st ("extractSHRT.exc-true-vs-exc-false"), in (), "std::domain_error (exc=false returned false)", "no domain_error");
                 return;
             }
-            Rp.fail ("extractSHRT.regular-matrix-reported-degenerate", in (), "true", "false");
+            Rp.fail (st ("extractSHRT.regular-matrix-reported-degenerate"), in (), "true", "false");
             return;
         }
         {
             LD e = recomposeErr (s, h, ref::compose (0, 1, 2, r.x, r.y, r.z), Mlin);
             t.w_recompose = std::max (t.w_recompose, (double) (e / (cond * eps * nrm)));
             if (!(e <= tol))
-                Rp.fail ("extractSHRT.recompose", in (), "S*H*R(xyz) within 16*cond*eps*|M| = " + ref::fmtE (tol), ref::fmtE (e) + " off; s=" + fmtVec (s) + " h=" + fmtVec (h) + " r=" + fmtVec (r));
+                Rp.fail (st ("extractSHRT.recompose"), in (), "S*H*R(xyz) within 16*cond*eps*|M| = " + ref::fmtE (tol), ref::fmtE (e) + " off; s=" + fmtVec (s) + " h=" + fmtVec (h) + " r=" + fmtVec (r));
             if (!(ex::same (tr.x, M[3][0]) && ex::same (tr.y, M[3][1]) && ex::same (tr.z, M[3][2])))
-                Rp.fail ("extractSHRT.translation", in (), vf::Msg () << "(" << M[3][0] << " " << M[3][1] << " " << M[3][2] << ")", fmtVec (tr));
+                Rp.fail (st ("extractSHRT.translation"), in (), vf::Msg () << "(" << M[3][0] << " " << M[3][1] << " " << M[3][2] << ")", fmtVec (tr));
         }
         try
         {
             V3 s1, h1, r1, t1;
             bool ok1 = extractSHRT (M, s1, h1, r1, t1); // exc defaults to true
-            if (!(ok1 && sameVec (s1, s) && sameVec (h1, h) && sameVec (r1, r) && sameVec (t1, tr))) Rp.fail ("extractSHRT.exc-true-vs-exc-false", in ());
+            if (!(ok1 && sameVec (s1, s) && sameVec (h1, h) && sameVec (r1, r) && sameVec (t1, tr))) Rp.fail (st ("extractSHRT.exc-true-vs-exc-false"), in ());
         }
-        catch (...) { Rp.fail ("extractSHRT.throws-on-regular-matrix", in ()); }
+        catch (...) { Rp.fail (st ("extractSHRT.throws-on-regular-matrix"), in ()); }
         t.transitions += 2;
 
         // B. extractAndRemoveScalingAndShear: structured factors
@@ -123,20 +133,20 @@ template <class T> struct Shrt3d
         V3   s2, h2;
         bool ok2 = false;
         try { ok2 = extractAndRemoveScalingAndShear (W, s2, h2, false); } catch (...) {}
-        if (!ok2) { Rp.fail ("extractAndRemoveScalingAndShear.regular-matrix-reported-degenerate", in (), "true", "false/throw"); return; }
+        if (!ok2) { Rp.fail (st ("extractAndRemoveScalingAndShear.regular-matrix-reported-degenerate"), in (), "true", "false/throw"); return; }
         const M3 Rres = ref::fromLib<3> (W);
         {
             LD oe = ref::orthoErr (Rres), dt = ref::det (Rres);
             t.w_ortho = std::max (t.w_ortho, (double) (oe / eps));
-            if (!(oe <= 16 * eps)) Rp.fail ("extractAndRemoveScalingAndShear.rotation-orthonormal", in (), "<= 16 eps", ref::fmtE (oe / eps) + " eps; " + ref::fmtLib<3> (W));
-            if (!(fabsl (dt - 1) <= 48 * eps)) Rp.fail ("extractAndRemoveScalingAndShear.rotation-det+1", in (), "det = +1 within 48 eps", ref::fmtE (dt));
+            if (!(oe <= 16 * eps)) Rp.fail (st ("extractAndRemoveScalingAndShear.rotation-orthonormal"), in (), "<= 16 eps", ref::fmtE (oe / eps) + " eps; " + ref::fmtLib<3> (W));
+            if (!(fabsl (dt - 1) <= 48 * eps)) Rp.fail (st ("extractAndRemoveScalingAndShear.rotation-det+1"), in (), "det = +1 within 48 eps", ref::fmtE (dt));
             LD e = recomposeErr (s2, h2, Rres, Mlin);
             t.w_recompose = std::max (t.w_recompose, (double) (e / (cond * eps * nrm)));
             if (!(e <= tol))
-                Rp.fail ("extractAndRemoveScalingAndShear.recompose", in (), "S*H*R within " + ref::fmtE (tol), ref::fmtE (e) + " off; s=" + fmtVec (s2) + " h=" + fmtVec (h2) + " R=" + ref::fmtLib<3> (W));
+                Rp.fail (st ("extractAndRemoveScalingAndShear.recompose"), in (), "S*H*R within " + ref::fmtE (tol), ref::fmtE (e) + " off; s=" + fmtVec (s2) + " h=" + fmtVec (h2) + " R=" + ref::fmtLib<3> (W));
             bool keep = frameOK (W);
             for (int i = 0; i < 3; ++i) keep = keep && ex::same (W[3][i], M[3][i]);
-            if (!keep) Rp.fail ("extractAndRemoveScalingAndShear.keeps-translation", in (), "row 3 / column 3 untouched", ref::fmtLib<4> (W));
+            if (!keep) Rp.fail (st ("extractAndRemoveScalingAndShear.keeps-translation"), in (), "row 3 / column 3 untouched", ref::fmtLib<4> (W));
         }
         t.transitions += 4;
 
@@ -145,17 +155,17 @@ template <class T> struct Shrt3d
             V3 s3, s4, h4;
             bool o3 = false, o4 = false;
             try { o3 = extractScaling (M, s3, false); o4 = extractScalingAndShear (M, s4, h4, false); } catch (...) {}
-            if (!o3) Rp.fail ("extractScaling.regular-matrix-reported-degenerate", in ());
-            else if (!sameVec (s3, s2)) { LD e = recomposeErr (s3, h2, Rres, Mlin); if (!(e <= tol)) Rp.fail ("extractScaling.recompose", in (), "within " + ref::fmtE (tol), ref::fmtE (e) + " off; s=" + fmtVec (s3)); }
-            if (!o4) Rp.fail ("extractScalingAndShear.regular-matrix-reported-degenerate", in ());
-            else if (!(sameVec (s4, s2) && sameVec (h4, h2))) { LD e = recomposeErr (s4, h4, Rres, Mlin); if (!(e <= tol)) Rp.fail ("extractScalingAndShear.recompose", in (), "within " + ref::fmtE (tol), ref::fmtE (e) + " off; s=" + fmtVec (s4) + " h=" + fmtVec (h4)); }
+            if (!o3) Rp.fail (st ("extractScaling.regular-matrix-reported-degenerate"), in ());
+            else if (!sameVec (s3, s2)) { LD e = recomposeErr (s3, h2, Rres, Mlin); if (!(e <= tol)) Rp.fail (st ("extractScaling.recompose"), in (), "within " + ref::fmtE (tol), ref::fmtE (e) + " off; s=" + fmtVec (s3)); }
+            if (!o4) Rp.fail (st ("extractScalingAndShear.regular-matrix-reported-degenerate"), in ());
+            else if (!(sameVec (s4, s2) && sameVec (h4, h2))) { LD e = recomposeErr (s4, h4, Rres, Mlin); if (!(e <= tol)) Rp.fail (st ("extractScalingAndShear.recompose"), in (), "within " + ref::fmtE (tol), ref::fmtE (e) + " off; s=" + fmtVec (s4) + " h=" + fmtVec (h4)); }
             t.transitions += 2;
         }
 
         // D. sansScaling / removeScaling = H*R*T
         {
             const M3 HR   = ref::mul (shearMat (c.h), c.R);
-            const LD tolH = 16 * cond * eps * std::max ((LD) 1, ref::maxabs (HR));
+            const LD tolH = 16 * cond * eps * std::max ((LD) 1, ref::maxabs (HR)) + (gridAbs > 0 ? 16 * cond * (gridAbs / nrm) * std::max ((LD) 1, ref::maxabs (HR)) : (LD) 0);
             LD       tm   = 0;
             for (int i = 0; i < 3; ++i) tm = std::max (tm, fabsl ((LD) M[3][i]));
             const LD tolT = 16 * eps * tm;
@@ -165,12 +175,12 @@ template <class T> struct Shrt3d
                 t.w_sans = std::max (t.w_sans, (double) (ref::maxdiff (ref::fromLib<3> (a), HR) / (cond * eps * std::max ((LD) 1, ref::maxabs (HR)))));
                 checkAffine ("sansScaling(Matrix44)", in, a, HR, M, tolH, tolT);
                 M44 b = M;
-                if (!removeScaling (b, false)) Rp.fail ("removeScaling(Matrix44).regular-matrix-reported-degenerate", in ());
+                if (!removeScaling (b, false)) Rp.fail (st ("removeScaling(Matrix44).regular-matrix-reported-degenerate"), in ());
                 else if (!sameMat<4> (a, b)) checkAffine ("removeScaling(Matrix44)", in, b, HR, M, tolH, tolT);
                 M44 a1 = sansScaling (M); // exc = true
                 if (!sameMat<4> (a, a1)) checkAffine ("sansScaling(Matrix44)", in, a1, HR, M, tolH, tolT);
             }
-            catch (...) { Rp.fail ("sansScaling(Matrix44).throws-on-regular-matrix", in ()); }
+            catch (...) { Rp.fail (st ("sansScaling(Matrix44).throws-on-regular-matrix"), in ()); }
             t.transitions += 3;
         }
 
@@ -181,10 +191,10 @@ template <class T> struct Shrt3d
                 M3 Rq = ref::fromLib<3> (q);
                 LD oe = ref::orthoErr (Rq), e = recomposeErr (s2, h2, Rq, Mlin);
                 if (!(oe <= 16 * eps) || !(fabsl (ref::det (Rq) - 1) <= 48 * eps) || !(e <= tol))
-                    Rp.fail (std::string (site) + ".rotation", in (), "the residual rotation", ref::fmtLib<4> (q));
+                    Rp.fail (st (std::string (site) + ".rotation"), in (), "the residual rotation", ref::fmtLib<4> (q));
                 bool keep = frameOK (q);
                 for (int i = 0; i < 3; ++i) keep = keep && ex::same (q[3][i], M[3][i]);
-                if (!keep) Rp.fail (std::string (site) + ".translation", in (), "row 3 of the input", ref::fmtLib<4> (q));
+                if (!keep) Rp.fail (st (std::string (site) + ".translation"), in (), "row 3 of the input", ref::fmtLib<4> (q));
             };
             try
             {
@@ -195,10 +205,10 @@ template <class T> struct Shrt3d
                 sansScalingAndShear (res, other, false);
                 judge ("sansScalingAndShear(result,mat)", res);
                 M44 b = M;
-                if (!removeScalingAndShear (b, false)) Rp.fail ("removeScalingAndShear(Matrix44).regular-matrix-reported-degenerate", in ());
+                if (!removeScalingAndShear (b, false)) Rp.fail (st ("removeScalingAndShear(Matrix44).regular-matrix-reported-degenerate"), in ());
                 else judge ("removeScalingAndShear(Matrix44)", b);
             }
-            catch (...) { Rp.fail ("sansScalingAndShear(Matrix44).throws-on-regular-matrix", in ()); }
+            catch (...) { Rp.fail (st ("sansScalingAndShear(Matrix44).throws-on-regular-matrix"), in ()); }
             t.transitions += 4;
         }
 
@@ -213,16 +223,16 @@ template <class T> struct Shrt3d
             bool oko = false;
             try { oko = extractSHRT (M, so, ho, ro, to, false, ORD[o]); } catch (...) {}
             ++t.rorder;
-            if (!oko) { Rp.fail ("extractSHRT(rOrder).regular-matrix-reported-degenerate", in () + " rOrder=" + STATIC6_NAME[o]); continue; }
+            if (!oko) { Rp.fail (st ("extractSHRT(rOrder).regular-matrix-reported-degenerate"), in () + " rOrder=" + STATIC6_NAME[o]); continue; }
             LD e = recomposeErr (so, ho, ref::compose (ax[0], ax[1], ax[2], ro[ax[0]], ro[ax[1]], ro[ax[2]]), Mlin);
-            if (!(e <= tol)) Rp.fail ("extractSHRT(rOrder).recompose", in () + " rOrder=" + STATIC6_NAME[o], "S*H*R(order, angle about axis a = r[a]) within " + ref::fmtE (tol), ref::fmtE (e) + " off; r=" + fmtVec (ro));
+            if (!(e <= tol)) Rp.fail (st ("extractSHRT(rOrder).recompose"), in () + " rOrder=" + STATIC6_NAME[o], "S*H*R(order, angle about axis a = r[a]) within " + ref::fmtE (tol), ref::fmtE (e) + " off; r=" + fmtVec (ro));
             // Euler& overload: the Euler handed in must come back representing the rotation
             E er (ORD[o]);
             V3 se, he, te;
             bool oke = false;
             try { oke = extractSHRT (M, se, he, er, te, false); } catch (...) {}
             ++t.euler_overload;
-            if (!oke) { Rp.fail ("extractSHRT(Euler&).regular-matrix-reported-degenerate", in () + " order=" + STATIC6_NAME[o]); continue; }
+            if (!oke) { Rp.fail (st ("extractSHRT(Euler&).regular-matrix-reported-degenerate"), in () + " order=" + STATIC6_NAME[o]); continue; }
             LD ee = recomposeErr (se, he, ref::compose (ax[0], ax[1], ax[2], er.x, er.y, er.z), Mlin);
             if (!(ee <= tol) || er.order () != ORD[o])
             {
@@ -230,7 +240,7 @@ template <class T> struct Shrt3d
                 // slots recompose M when read "angle about axis a = slot a"); any other wrong answer keeps the plain site
                 LD ex2 = recomposeErr (se, he, ref::compose (ax[0], ax[1], ax[2], er[ax[0]], er[ax[1]], er[ax[2]]), Mlin);
                 bool xyzSlots = er.order () == ORD[o] && ex2 <= tol;
-                failThrottled (xyzSlots ? "extractSHRT(Euler&).recompose.slots-hold-XYZ-layout-vector" : "extractSHRT(Euler&).recompose", [&] { return in () + " order=" + STATIC6_NAME[o]; },
+                failThrottled (st (xyzSlots ? "extractSHRT(Euler&).recompose.slots-hold-XYZ-layout-vector" : "extractSHRT(Euler&).recompose"), [&] { return in () + " order=" + STATIC6_NAME[o]; },
                                [&] { return "S*H*R(euler)*T = M within " + ref::fmtE (tol); }, [&] { return ref::fmtE (ee) + " off; euler slots=" + fmtVec ((const V3&) er); });
             }
             t.transitions += 2;
@@ -260,13 +270,13 @@ template <class T> struct Shrt3d
             bool oko = false;
             try { oko = extractSHRT (M, so, ho, ro, to, false, ord); } catch (...) {}
             ++t.rorder;
-            if (!oko) Rp.fail ("extractSHRT(rOrder).regular-matrix-reported-degenerate", in () + " rOrder=" + O.name);
+            if (!oko) Rp.fail (st ("extractSHRT(rOrder).regular-matrix-reported-degenerate"), in () + " rOrder=" + O.name);
             else
             {
                 E  dec (ro, ord, E::XYZLayout);
                 LD e = recomposeErr (so, ho, ref::eulerRef (O, dec.x, dec.y, dec.z), Mlin);
                 if (!(e <= tolO) || !sameVec (to, tr))
-                    failThrottled ("extractSHRT(rOrder).recompose." + oc + "-order", [&] { return in () + " rOrder=" + O.name; }, [&] { return "S*H*R(Euler(r,rOrder,XYZLayout))*T = M within " + ref::fmtE (tolO); },
+                    failThrottled (st ("extractSHRT(rOrder).recompose." + oc + "-order"), [&] { return in () + " rOrder=" + O.name; }, [&] { return "S*H*R(Euler(r,rOrder,XYZLayout))*T = M within " + ref::fmtE (tolO); },
                                    [&] { return ref::fmtE (e) + " off; r=" + fmtVec (ro) + " t=" + fmtVec (to); });
             }
             E  er (ord);
@@ -274,12 +284,12 @@ template <class T> struct Shrt3d
             bool oke = false;
             try { oke = extractSHRT (M, se, he, er, te, false); } catch (...) {}
             ++t.euler_overload;
-            if (!oke) Rp.fail ("extractSHRT(Euler&).regular-matrix-reported-degenerate", in () + " order=" + O.name);
+            if (!oke) Rp.fail (st ("extractSHRT(Euler&).regular-matrix-reported-degenerate"), in () + " order=" + O.name);
             else
             {
                 LD ee = recomposeErr (se, he, ref::eulerRef (O, er.x, er.y, er.z), Mlin);
                 if (!(ee <= tolO) || er.order () != ord || !sameVec (te, tr))
-                    failThrottled ("extractSHRT(Euler&).recompose." + oc + "-order", [&] { return in () + " order=" + O.name; }, [&] { return "S*H*R(euler)*T = M within " + ref::fmtE (tolO) + ", order kept"; },
+                    failThrottled (st ("extractSHRT(Euler&).recompose." + oc + "-order"), [&] { return in () + " order=" + O.name; }, [&] { return "S*H*R(euler)*T = M within " + ref::fmtE (tolO) + ", order kept"; },
                                    [&] { return ref::fmtE (ee) + " off; euler slots=" + fmtVec ((const V3&) er) + " order=" + c11::hex4 ((int) er.order ()); });
             }
             t.transitions += 2;
@@ -443,7 +453,8 @@ template <class T> struct Shrt3d
     }
 
     // ---- computeRSMatrix(keepRotateA, keepScaleA, A, B) = S_x * R_y * T_A
-    template <class TagF> void rs (const Shrt3& fa, const Shrt3& fb, TagF&& tagf, ShrtTally& t) const
+    // mayReport / gridAbs: see regular(); computeRSMatrix reports by std::domain_error only
+    template <class TagF> void rs (const Shrt3& fa, const Shrt3& fb, TagF&& tagf, ShrtTally& t, bool mayReport = false, LD gridAbs = 0) const
     {
         const M44   A = toLib44<T> (affine (linOf (fa), fa.t)), B = toLib44<T> (affine (linOf (fb), fb.t));
         const Shrt3 ca = canonical (fa), cb = canonical (fb);
@@ -463,9 +474,13 @@ template <class T> struct Shrt3d
             {
                 M44 g = computeRSMatrix (keepR, keepS, A, B);
                 t.w_rs = std::max (t.w_rs, (double) (ref::maxdiff (ref::fromLib<3> (g), want) / (cnd * eps * smax)));
-                checkAffine ("computeRSMatrix", in, g, want, A, 16 * cnd * eps * smax, 16 * eps * tm);
+                // gridAbs > 0: the entries of the scaled operand carry an absolute error of denorm_min/2, i.e. gridAbs/max|entry| relative to
+                // its largest entry (instead of eps), which the rotation taken from it inherits; the product S*R is rounded to the same grid
+                const LD grid = gridAbs > 0 ? 16 * cnd * (gridAbs / std::min (ref::maxabs (ref::fromLib<3> (A)), ref::maxabs (ref::fromLib<3> (B)))) * smax + 16 * cnd * gridAbs : (LD) 0;
+                checkAffine ("computeRSMatrix", in, g, want, A, 16 * cnd * eps * smax + grid, 16 * eps * tm);
             }
-            catch (...) { vf::R ().fail ("computeRSMatrix.throws-on-regular-matrix", in ()); }
+            catch (const std::domain_error&) { if (mayReport) ++t.tiny_reported; else vf::R ().fail (st ("computeRSMatrix.throws-on-regular-matrix"), in ()); }
+            catch (...) { vf::R ().fail (st ("computeRSMatrix.throws-on-regular-matrix"), in ()); }
         }
         t.transitions += 4;
     }
@@ -626,6 +641,83 @@ template <class T> inline void run_shrt3d (int part)
         R ().cls ("shrt3d.singular-no-zero-row.rounding-residue-scale(counted, held to consistency only)", G.sing_residue);
         std::string b = "all 3x3 linear parts over {-1,0,1,2} of exact rank < 3 without a zero row, " + tn + ": ten entry points x both exc modes";
         if (ok) R ().stage_done (b); else R ().stage_partial (b);
+    }
+
+
+    if (part == 0 && R ().stage ("shrt3d-uniformly-scaled-" + tn))
+    {
+        // Well-conditioned matrices (the scale x shear x rotation families of the main sweep) whose linear part is multiplied
+        // by an exact power of two 2^k: down until EVERY entry of the upper 3x3 is subnormal (largest entry below 1/max, so
+        // that a reciprocal of it overflows although every quotient by it is O(1)), down to tiny normal entries, and up to
+        // entries near max/8. The factors of 2^k*M are those of M with the scales multiplied by 2^k (exactly, a power of
+        // two): conditioning is unchanged, so the statement ("every affine matrix whose linear part is not nearly singular")
+        // promises the same relations - recomposition, orthonormal residual rotation, H*R*T / R*T / S_x*R_y*T_A products -
+        // with the bounds of regular() (see the gridAbs comment there for the subnormal grid). The scaled-DOWN levels belong
+        // to the statement's "tiny scales" class, which (as for the 1e-30 scales of shrt3d-degenerate) may be reported as
+        // degenerate instead of decomposed, but never decomposed wrongly; the scaled-UP level must be decomposed.
+        const std::vector<int> KS = sizeof (T) == 4 ? std::vector<int>{-137, -133, -131, -120, -100, 120} : std::vector<int>{-1060, -1033, -1029, -1027, -1015, -900, 1016};
+        static const LD  SB[6] = {1, -1, 3, -3, 0.5L, -0.25L};
+        static const int HS[5] = {13 /* no shear */, 0 /* (-1,-1,-1) */, 26 /* (1,1,1) */, 27, 28 /* generic */};
+        const int      rstep = std::max (1, nr / 27);
+        const uint64_t nrr = (nr + rstep - 1) / rstep, nks = KS.size (), N = nks * 216 * 5 * nrr;
+        const LD       tmin = std::numeric_limits<T>::min (), tmax = std::numeric_limits<T>::max (), dmin = std::numeric_limits<T>::denorm_min ();
+        Shrt3d<T> chkSub, chkTiny, chkHuge;
+        chkSub.sfx  = ".uniformly-scaled.all-entries-subnormal";
+        chkTiny.sfx = ".uniformly-scaled.tiny-normal-entries";
+        chkHuge.sfx = ".uniformly-scaled.huge-entries";
+        Shrt3 regB;
+        for (int a = 0; a < 3; ++a) { regB.s[a] = 1 + a; regB.h[a] = GENERIC_H[0][a]; regB.t[a] = TRANS[0][a]; }
+        regB.R = Rtab[nr / 3 + 1];
+        ShrtTally G;
+        long long c_sub = 0, c_recip = 0, c_tiny = 0, c_huge = 0, c_refl = 0, c_sheared = 0;
+        bool ok = vf::parallel_chunks (N, 5 * nrr, [&] (uint64_t lo, uint64_t hi, unsigned) {
+            ShrtTally l;
+            long long sub = 0, recip = 0, tiny = 0, huge = 0, refl = 0, sheared = 0;
+            for (uint64_t i = lo; i < hi; ++i)
+            {
+                uint64_t r = i;
+                int ri = (int) (r % nrr) * rstep; r /= nrr;
+                int hi_ = HS[r % 5]; r /= 5;
+                int sd[3];
+                ex::decode (r % 216, 6, 3, sd); r /= 216;
+                const int k = KS[r];
+                Shrt3 f;
+                for (int a = 0; a < 3; ++a) { f.s[a] = ldexpl (SB[sd[a]], k); f.t[a] = TRANS[0][a]; }
+                shearOf (hi_, f.h);
+                f.R = Rtab[ri];
+                // classes: predicates on the composed input
+                const LD nrmL = ref::maxabs (linOf (f));
+                const Shrt3d<T>* ck;
+                if (k > 0) { ++huge; ck = &chkHuge; }
+                else if (nrmL < tmin) { ++sub; ck = &chkSub; if (nrmL * tmax < 1) ++recip; }
+                else { ++tiny; ck = &chkTiny; }
+                if (f.s[0] * f.s[1] * f.s[2] < 0) ++refl;
+                if (f.h[0] != 0 || f.h[1] != 0 || f.h[2] != 0) ++sheared;
+                const bool mayReport = k < 0;
+                ck->regular (f, [&] { return "2^" + std::to_string (k) + " * " + tagOf (f, ri); }, l, hi_ >= 27 && ri % 2 == 0, mayReport, dmin);
+                if (hi_ == 13 || hi_ == 27)
+                {
+                    ck->rs (f, regB, [&] { return "A scaled by 2^" + std::to_string (k) + ": " + tagOf (f, ri); }, l, mayReport, dmin);
+                    ck->rs (regB, f, [&] { return "B scaled by 2^" + std::to_string (k) + ": " + tagOf (f, ri); }, l, mayReport, dmin);
+                }
+            }
+            std::lock_guard<std::mutex> g (mu);
+            G.merge (l);
+            c_sub += sub; c_recip += recip; c_tiny += tiny; c_huge += huge; c_refl += refl; c_sheared += sheared;
+        });
+        R ().add ("states", G.cases); R ().add ("evaluations", G.cases); R ().add ("transitions", G.transitions);
+        R ().add ("uniformly_scaled_down_reported_as_degenerate(3-D, " + tn + ")", G.tiny_reported);
+        R ().cls ("shrt3d.uniformly-scaled.all-entries-subnormal", c_sub);
+        R ().cls ("shrt3d.uniformly-scaled.all-entries-subnormal.reciprocal-of-largest-entry-overflows", c_recip);
+        R ().cls ("shrt3d.uniformly-scaled.tiny-normal-entries", c_tiny);
+        R ().cls ("shrt3d.uniformly-scaled.huge-entries(near max/8)", c_huge);
+        R ().cls ("shrt3d.uniformly-scaled.reflection", c_refl);
+        R ().cls ("shrt3d.uniformly-scaled.sheared", c_sheared);
+        R ().cls ("shrt3d.uniformly-scaled.computeRSMatrix-calls", G.rs);
+        R ().note_max ("worst 3-D residual-rotation orthonormality, uniformly scaled inputs (eps, " + tn + ")", G.w_ortho);
+        std::string b = std::to_string (nks) + " powers of two (all-subnormal, tiny normal, near max/8) x 6^3 scales x 5 shears x " + std::to_string (nrr) + " rotations, " + tn +
+                        ": every 3-D entry point incl. computeRSMatrix (scaled A / scaled B), extractSHRT rOrder / Euler& in all 24 orders on the generic shears";
+        if (ok) R ().stage_done (b); else R ().stage_partial (std::to_string (G.cases) + " of " + b);
     }
 
     if (part == 0 && R ().stage ("computeRSMatrix-" + tn))
